@@ -111,6 +111,7 @@ func Drive(c *Check, tier string, seed int64) int {
 		fmt.Println("cannot create work dir:", err)
 		return ExitInconclusive
 	}
+	os.RemoveAll(filepath.Join(oroot, "replays", c.ID)) // replay files belong to one run
 	jobs := c.Plan(tier, seed)
 	nw := runtime.NumCPU()
 	if c.MaxWorkers > 0 && nw > c.MaxWorkers {
